@@ -1,0 +1,23 @@
+//go:build verif
+
+package stat
+
+// Contracts for the deductive verifier in /verif (govc). Comment-only file: adds no code.
+
+// The metrics container of the periodical executor: a reported task is either counted as a drop or kept (in
+// order) with its duration added; it never asks for an early flush; RemoveAll hands over everything collected
+// and starts from zero without sharing storage.
+//@ func (*metricsContainer).AddTask
+//@   prop C16
+//@   requires c != nil
+//@   let t = unbox(v, Task)
+//@   ensures [never-full] !result
+//@   ensures [drop-counted] typeis(v, Task) && t.Drop ==> c.drops == old(c.drops) + 1 && len(c.tasks) == old(len(c.tasks)) && c.duration == old(c.duration)
+//@   ensures [task-kept-in-order] typeis(v, Task) && !t.Drop ==> len(c.tasks) == old(len(c.tasks)) + 1 && c.tasks[len(c.tasks) - 1].Duration == t.Duration && c.duration == old(c.duration) + t.Duration && c.drops == old(c.drops)
+//@   ensures [foreign-value-ignored] !typeis(v, Task) ==> len(c.tasks) == old(len(c.tasks)) && c.drops == old(c.drops) && c.duration == old(c.duration)
+//@ func (*metricsContainer).RemoveAll
+//@   prop C16
+//@   requires c != nil
+//@   let p = unbox(result, tasksDurationPair)
+//@   ensures [everything-handed-over] typeis(result, tasksDurationPair) && p.tasks == old(c.tasks) && p.duration == old(c.duration) && p.drops == old(c.drops)
+//@   ensures [starts-from-zero] len(c.tasks) == 0 && cap(c.tasks) == 0 && c.duration == 0 && c.drops == 0
